@@ -198,6 +198,7 @@ Fixpoint dedup (seen : list str) (R' : env) : env :=
   end.
 Definition R1 : env := shrink (shrink (shrink (shrink (shrink (shrink (dedup [] R)))))).
 Eval vm_compute in (N.of_nat (length R), N.of_nat (length R1), if plain_envb is_upper is_alnum is_numeric R1 fuel then 1%N else 0%N).
+Eval vm_compute in (map fst R1).
 """)
     ok, out = vlib.coq_eval("%s_scope" % res["envname"], body, timeout=900)
     if not ok:
@@ -205,7 +206,40 @@ Eval vm_compute in (N.of_nat (length R), N.of_nat (length R1), if plain_envb is_
     m = re.search(r"=\s*\((\d+)(?:%N)?,\s*(\d+)(?:%N)?,\s*(\d+)(?:%N)?\)", out)
     if not m:
         raise vlib.HarnessError("scope file: unexpected output " + out[-500:])
+    res["plain_idents"] = set(vlib.parse_coq_str_list(out.split("=", 2)[2].rsplit(":", 1)[0])) if out.count("=") >= 2 else set()
     return int(m.group(1)), int(m.group(2)), int(m.group(3))
+
+
+def de_model(res, items, tag="de"):
+    """items: (query index, json text).  Spec/SerdeDe.v on each: returns 'A' + re-serialised text (accepted; '?' if the model
+    cannot serialise the value), 'M' (a leaf the Rust type cannot represent) or 'R' (rejected)"""
+    qs = res["queries"]
+    nsh = 12
+    idx = list(range(len(items)))
+    shards = [idx[k::nsh] for k in range(nsh)]
+    files = []
+    for k, sh in enumerate(shards):
+        if not sh:
+            continue
+        terms = []
+        for c in sh:
+            qi, text = items[c]
+            terms.append("(let t := %s in match de is_upper R 40 t %s with DOk v => 65 :: match ser is_upper R 40 t v with Some j' => json_text j' | None => [63] end "
+                         "| DMisfit => [77] | DReject => [82] end)%%N" % (C.coq_ty(qs[qi]), coq_json(parse_json(text))))
+        body = ("From TsRs Require Import Corr.%s Spec.Serde Spec.SerdeDe.\n" % res["envname"] + CR.HEADER + SEM_HEADER +
+                "Eval vm_compute in %s.\n" % coq_list(terms, sep=";\n "))
+        files.append(("%s_%s%d" % (res["envname"], tag, k), body))
+    outs = vlib.coq_eval_many(files, timeout=2400)
+    result = {}
+    for (nm, _), (ok, out), sh in zip(files, outs, [s_ for s_ in shards if s_]):
+        if not ok:
+            raise vlib.HarnessError("%s.v failed: %s" % (nm, out[-3000:]))
+        vals = vlib.parse_coq_str_list(out.split("=", 1)[1].rsplit(":", 1)[0])
+        if len(vals) != len(sh):
+            raise vlib.HarnessError("%s.v: %d answers for %d cases" % (nm, len(vals), len(sh)))
+        for c, v in zip(sh, vals):
+            result[c] = v
+    return [result.get(c) for c in range(len(items))]
 
 
 def overrides(res, sound_ok=False):
